@@ -92,6 +92,12 @@ func runPrefix(w *World, name string) {
 			w.Step(pt.Action{Op: "inc", R: 0, P: 1})
 		}
 		syncAll()
+	case "bound": // a counter five below the largest 32-bit value on every replica: the next increments wrap around
+		w.Step(pt.Action{Op: "inc", R: 0, P: 2147483647})
+		w.Step(pt.Action{Op: "inc", R: 0, P: -2})
+		w.Step(pt.Action{Op: "inc", R: 0, P: -2})
+		w.Step(pt.Action{Op: "inc", R: 0, P: -1})
+		syncAll()
 	case "tomb": // shared content with tombstones on every replica: a removed key, a deleted element between two live ones,
 		// a deleted nested container and an array with a hole
 		switch w.P.Type {
@@ -208,6 +214,10 @@ func localCalls(w *World, ri int, alpha string) []pt.Action {
 		if rich {
 			add(pt.Action{Op: "inc", P: 2147483647})
 		}
+		if strings.Contains(alpha, "wrap") {
+			add(pt.Action{Op: "inc", P: 10})
+			add(pt.Action{Op: "inc", P: -20})
+		}
 	case r.mp != nil:
 		keys := []string{"a"}
 		if rich {
@@ -218,6 +228,18 @@ func localCalls(w *World, ri int, alpha string) []pt.Action {
 			if r.mp.Get(k) != nil {
 				add(pt.Action{Op: "rem", K: k})
 			}
+		}
+	case r.li != nil && strings.Contains(alpha, "lean"):
+		// few calls, deeper histories: insert in the middle and at the end, delete the first and the last, update the middle
+		n := r.li.Size()
+		for _, p := range uniq(n/2, n) {
+			add(pt.Action{Op: "ins1", P: p, V: "p"})
+		}
+		if n > 0 {
+			for _, p := range uniq(0, n-1) {
+				add(pt.Action{Op: "del1", P: p})
+			}
+			add(pt.Action{Op: "upd", P: n / 2, N: 1, V: "p"})
 		}
 	case r.li != nil:
 		n := r.li.Size()
